@@ -107,57 +107,159 @@ def _kept_alphabet(pattern: str) -> Tuple[Optional[Set[str]], str]:
     return kept, ""
 
 
+def _regex_call(prog, module: str, t, method: str):
+    """(pattern, other args) if t is re.<method>(P, ...) or <module-level compiled regex>.<method>(...)."""
+    from ..core import module_binding
+    if t[0] != "call" or t[1][0] != "attr" or t[1][2] != method or t[3]:
+        return None
+    recv = t[1][1]
+    if recv == ("name", "re") and t[2] and t[2][0][0] == "const" and isinstance(t[2][0][2], str):
+        return t[2][0][2], t[2][1:]
+    if recv[0] == "name":
+        b = module_binding(prog, module, recv[1])
+        if b is not None and b[0] == "constant" and isinstance(b[1], ast.Call) and short(b[1].func) == "re.compile" and b[1].args \
+                and isinstance(b[1].args[0], ast.Constant) and len(b[1].args) == 1 and not b[1].keywords:
+            return b[1].args[0].value, t[2]
+    if recv[0] == "call" and recv[1] == ("attr", ("name", "re"), "compile") and len(recv[2]) == 1 and recv[2][0][0] == "const":
+        return recv[2][0][2], t[2]
+    return None
+
+
 def _sanitiser(ctx) -> None:
+    from ..symx import Interp as SInterp
+    from ..symx import NONE as SNONE
+    from ..symx import const, show
     prog = ctx.prog
     f = prog.func("naming._sanitize_user_name")
-    body = [s for s in f.body if not (isinstance(s, ast.Expr) and isinstance(s.value, ast.Constant))]
-    steps = [_step_of(s, f.params[0]) for s in body]
-    ok = steps == STEPS
-    ctx.ob("a.sanitiser", f, "pipeline-order", ok, f"steps: {steps}", f.node,
-           message=f"the sanitisation pipeline is {steps}, the documented order is {STEPS} (e.g. the leading-digit prefix must be "
-                   f"decided on the name AFTER outer underscores are stripped, '_2nd' -> 'c2nd')")
-    # details of the steps
-    problems = []
-    for s, st in zip(steps, body):
-        if s == "sub":
-            pat = st.value.args[0].value if isinstance(st.value.args[0], ast.Constant) else None
-            rep = st.value.args[1].value if isinstance(st.value.args[1], ast.Constant) else None
-            if pat is None:
-                problems.append("the replaced pattern is not a literal")
+    it = SInterp(prog, f)
+    nm = ("param", f.params[0])
+    sh = lambda t: show(t, it)[:70]
+    order: List[str] = []       # what went wrong in the order of the stages
+    details: List[str] = []
+    rets = it.returns
+    none_rets = [(c, t) for c, t in rets if t == SNONE]
+    val_rets = [(c, t) for c, t in rets if t != SNONE]
+    stages = []
+    pat = rep = lk = None
+    if len(val_rets) != 1:
+        order.append(f"{len(val_rets)} value returns")
+    else:
+        R = val_rets[0][1]
+
+        def suffix_stage(t, what):
+            """t == (X + '_' if C(X) else X)  ->  (C, X)"""
+            if t[0] == "ifexp":
+                for a, b, pol in ((t[2], t[3], True), (t[3], t[2], False)):
+                    if a == ("bin", "Add", b, const("_")):
+                        return t[1], b, pol
+            return None
+        # reserved
+        r = suffix_stage(R, "reserved")
+        v5 = None
+        if r is None:
+            order.append(f"the last stage is `{sh(R)}`, not `name + '_' if name in _get_reserved_names() else name`")
+            if R[0] == "ifexp":
+                details.append("a reserved name is not suffixed with '_'")
+        else:
+            c, v5, pol = r
+            if not (pol and c == ("cmp", "In", v5, ("call", ("name", "_get_reserved_names"), (), ()))):
+                details.append(f"reserved test is `{sh(c)}`")
+            stages.append("reserved")
+        # look-alike
+        v4 = None
+        if v5 is not None:
+            r = suffix_stage(v5, "lookalike")
+            if r is None:
+                order.append(f"before the reserved test the name is `{sh(v5)}`, not the look-alike stage (`x + '_'` if it looks like name__N)")
             else:
-                kept, why = _kept_alphabet(pat)
-                if kept is None:
-                    problems.append(f"pattern {pat!r}: {why}")
+                c, v4, pol = r
+                cc = c
+                if cc[0] == "cmp" and cc[1] == "Is" and cc[3] == SNONE:
+                    cc, pol = cc[2], not pol
+                m = _regex_call(prog, f.module, cc, "match") or _regex_call(prog, f.module, cc, "fullmatch")
+                if m is None or not pol or m[1] != (v4,):
+                    details.append(f"the look-alike test is `{sh(c)}`, not a regex match on the name at that stage")
                 else:
-                    extra = sorted(c for c in kept if not re.fullmatch(r"[a-z0-9_]", c))
-                    if extra:
-                        problems.append(f"pattern {pat!r} keeps {extra[:5]}: the accessor would not be a valid identifier")
-                    missing = sorted(set("abcdefghijklmnopqrstuvwxyz0123456789_") - kept)
-                    if missing:
-                        problems.append(f"pattern {pat!r} also replaces {missing[:5]}")
-                    if why:
-                        problems.append(why)
-            if rep != "_":
-                problems.append(f"invalid runs are replaced by {rep!r}, not '_'")
-        if s == "digit":
-            b0 = st.body[0] if len(st.body) == 1 else None
-            if not (isinstance(b0, ast.Assign) and isinstance(b0.targets[0], ast.Name)
-                    and short(b0.value).replace('"', "'") == f"'c' + {b0.targets[0].id}"):
-                problems.append(f"a leading digit is handled by `{short(st.body[0], 50)}`, expected the prefix 'c'")
-            if "[0].isdigit()" not in short(st.test):
-                problems.append("the leading-digit test does not look at the first character")
-        if s == "lookalike":
-            m = [n for n in ast.walk(st.test) if isinstance(n, ast.Constant) and isinstance(n.value, str)]
-            if not m or m[0].value != r"^.+__\d+$":
-                problems.append(f"the indexed-accessor look-alike pattern is {m[0].value if m else '?'!r}, expected '^.+__\\\\d+$'")
-            if not short(st.body[0]).replace('"', "'").endswith("+ '_'"):
-                problems.append("a look-alike name is not suffixed with '_'")
-        if s == "reserved":
-            if not short(st.body[0]).replace('"', "'").endswith("+ '_'"):
-                problems.append("a reserved name is not suffixed with '_'")
-            if not (isinstance(st.test, ast.Compare) and isinstance(st.test.left, ast.Name) and len(st.test.ops) == 1
-                    and isinstance(st.test.ops[0], ast.In) and short(st.test.comparators[0]) == "_get_reserved_names()"):
-                problems.append(f"reserved test is `{short(st.test)}`")
+                    lk = m[0]
+                stages.append("lookalike")
+        # digit
+        v3 = None
+        if v4 is not None:
+            ok = False
+            if v4[0] == "ifexp":
+                for a, b, pol in ((v4[2], v4[3], True), (v4[3], v4[2], False)):
+                    if a[0] == "bin" and a[1] == "Add" and a[3] == b and a[2][0] == "const":
+                        v3 = b
+                        ok = True
+                        if a[2] != const("c"):
+                            details.append(f"a leading digit is handled by the prefix {a[2][2]!r}, expected the prefix 'c'")
+                        want = ("call", ("attr", ("sub", b, const(0)), "isdigit"), (), ())
+                        if not (pol and v4[1] == want):
+                            details.append(f"the leading-digit test is `{sh(v4[1])}`: it does not look at the first character of the name at "
+                                           f"that stage")
+            if not ok:
+                order.append(f"before the look-alike test the name is `{sh(v4)}`, not the leading-digit stage ('c' + x)")
+            else:
+                stages.append("digit")
+        # strip, sub, lower, coerce
+        if v3 is not None:
+            if v3[0] == "call" and v3[1][0] == "attr" and v3[1][2] == "strip" and v3[2] == (const("_"),):
+                stages.append("strip")
+                v2 = v3[1][1]
+                m = _regex_call(prog, f.module, v2, "sub")
+                if m is None or len(m[1]) != 2:
+                    order.append(f"what is stripped is `{sh(v2)}`, not re.sub(<invalid runs>, '_', lowered name)")
+                else:
+                    stages.append("sub")
+                    pat, (rp, v1) = m[0], m[1]
+                    rep = rp[2] if rp[0] == "const" else None
+                    if v1[0] == "call" and v1[1][0] == "attr" and v1[1][2] == "lower" and not v1[2]:
+                        stages.append("lower")
+                        v0 = v1[1][1]
+                        coerced = ("call", ("name", "str"), (nm,), ())
+                        isn = ("call", ("name", "isinstance"), (nm, ("name", "str")), ())
+                        if v0 in (("ifexp", isn, nm, coerced), coerced):
+                            stages.append("coerce")
+                        else:
+                            order.append(f"the lowered value is `{sh(v0)}`, not the name coerced with str() when it is not a str")
+                    else:
+                        order.append(f"invalid runs are replaced in `{sh(v1)}`, not in the LOWERED name")
+            else:
+                order.append(f"the leading-digit test looks at `{sh(v3)}`, not at the name with outer underscores stripped "
+                             f"('_2nd' must become 'c2nd')")
+            # empty -> None
+            ok_none = False
+            for c, _ in none_rets:
+                if len(c) == 1 and (c[0] == (("cmp", "Eq", v3, const("")), True) or c[0] == (v3, False)):
+                    ok_none = True
+            if ok_none:
+                stages.append("empty")
+            else:
+                order.append("a name that is empty after stripping does not return None (before the digit / suffix stages)")
+    want = {"coerce", "lower", "sub", "strip", "empty", "digit", "lookalike", "reserved"}
+    ok = not order and set(stages) == want
+    ctx.ob("a.sanitiser", f, "pipeline-order", ok, f"stages recovered from the returned term: {stages}", f.node,
+           message=f"the sanitisation pipeline deviates from coerce -> lower -> sub -> strip -> empty -> digit -> look-alike -> reserved "
+                   f"(e.g. the leading-digit prefix must be decided on the name AFTER outer underscores are stripped, '_2nd' -> 'c2nd'): "
+                   + "; ".join(order or [f"stages found: {stages}"]))
+    problems = list(details)
+    if pat is not None:
+        kept, why = _kept_alphabet(pat)
+        if kept is None:
+            problems.append(f"pattern {pat!r}: {why}")
+        else:
+            extra = sorted(c for c in kept if not re.fullmatch(r"[a-z0-9_]", c))
+            if extra:
+                problems.append(f"pattern {pat!r} keeps {extra[:5]}: the accessor would not be a valid identifier")
+            missing = sorted(set("abcdefghijklmnopqrstuvwxyz0123456789_") - kept)
+            if missing:
+                problems.append(f"pattern {pat!r} also replaces {missing[:5]}")
+            if why:
+                problems.append(why)
+        if rep != "_":
+            problems.append(f"invalid runs are replaced by {rep!r}, not '_'")
+    if lk is not None and lk != r"^.+__\d+$":
+        problems.append(f"the indexed-accessor look-alike pattern is {lk!r}, expected '^.+__\\d+$'")
     ctx.ob("a.sanitiser", f, "steps", not problems, "kept alphabet [a-z0-9_], + quantifier, 'c' prefix, '_' suffixes", f.node,
            message="; ".join(problems))
     # reserved set is built from the public callables / properties of Vector and Table, lower-cased
